@@ -142,7 +142,7 @@ func decodeFree(res string, n int) ([]freeResult, bool) {
 // runFreeIsolated runs the scenarios with free-running goroutines in child processes and feeds the
 // outcomes to the model comparison and the oracles of the parent run.
 func runFreeIsolated(r *core.Run, scs []scenario, keys []string) {
-	const batch = 40
+	const batch = 150 // one child per 150 scenarios (quick tier: a single child)
 	report := func(sc scenario, key string, fr freeResult) {
 		r.Begin(key, fr.Calls > 0, "mode:free")
 		tagCreation(r, sc)
